@@ -228,6 +228,29 @@ def run_unit(u, desc, tier, seed):
                       sample=(li == 0))
         st2 = u.prove(key + '/all:listed-rows-in-shell', pre_l, listed_ok, replay=rp, detail='path %d: every listed row satisfies m < sintl^2 <= M on this path' % li, timeout=30)
         st3 = u.prove(key + '/all:none-missing', pre_l, none_missing, replay=rp, detail='path %d: no allowed box point (of %d unlisted ones) can lie in the shell on this path' % (li, len(missing)), timeout=30)
+        if li < 4:
+            # translator validation: a solver witness of this path, turned into a real cell and shell, must make the real code
+            # (real sintl, real numpy) return exactly the rows of this leaf
+            stw, mw, _ = smt.solve(pre_l + [zc.cmp0(v('M') - v('m') - Fraction(1, 100), '>=')], timeout_s=10, cvc5_timeout_s=0)
+            if stw == 'sat' and mw:
+                try:
+                    import math
+                    envw = {k: float(x) for k, x in mw.items() if not isinstance(x, (bool, str))}
+                    cellw, _ = cell_from_env(envw, s.crystal_system, s.cell_choice)
+                    lo_, hi_ = math.sqrt(max(envw.get('m', 0.0), 0.0)), math.sqrt(envw.get('M', 1.0))
+                    np.random.seed(5)
+                    real_rows = {tuple(int(round(x)) for x in r[:3]) for r in np.asarray(mod.genhkl_all(cellw, lo_, hi_, sgno=no, cell_choice=cc))}
+                    # rows whose sintl is within 1e-9 of a shell edge may differ through rounding: compare away from the edges
+                    def edge(h):
+                        sv = float(mod.sintl(cellw, list(h)))
+                        return abs(sv - lo_) < 1e-7 or abs(sv - hi_) < 1e-7 or abs(sv - 1.1 * hi_) < 1e-7
+                    diff = {h for h in (real_rows ^ set(rows_a)) if not edge(h)}
+                    if not diff:
+                        u.validated += 1
+                    else:
+                        u.notes.append('witness of path %d: real genhkl_all differs from the symbolic leaf in %s' % (li, sorted(diff)[:3]))
+                except Exception as ex:
+                    u.notes.append('witness replay of path %d failed: %r' % (li, ex))
         if 'violated' in (st1, st2, st3):
             nviol += 1
             if nviol >= 5:
